@@ -542,11 +542,18 @@ impl Duration {
     /// assert_eq!(two_hours_three_min.floor(1.hours() + 5.minutes()), 1.hours() + 5.minutes());
     /// ```
     pub fn floor(&self, duration: Self) -> Self {
-        Self::from_total_nanoseconds(if duration.total_nanoseconds() == 0 {
-            0
+        let step = duration.total_nanoseconds().abs();
+        if step == 0 {
+            return Self::ZERO;
+        }
+        // rem_euclid is in [0, step) for either sign of self, so this is the greatest multiple not above self.
+        let floored = self.total_nanoseconds() - self.total_nanoseconds().rem_euclid(step);
+        if floored - step <= Self::MIN.total_nanoseconds() {
+            // Within one step of the lower bound the floor saturates: (MIN + step).floor(step) is MIN.
+            Self::MIN
         } else {
-            self.total_nanoseconds() - self.total_nanoseconds() % duration.total_nanoseconds()
-        })
+            Self::from_total_nanoseconds(floored)
+        }
     }
 
     /// Ceils this duration to the closest provided duration
